@@ -16,10 +16,11 @@ KINDS = {
     "array_get": ("let r = Array[Int64]::new(1, 2)(x + x);", 103, "array index out of bounds"),
     "array_set": ("let r = 0; Array[Int64]::new(1, 2)(z - x) = 5;", 103, "array index out of bounds"),
     # the failing access produces a reference to the element (field assignment / mutating method through the index);
-    # an earlier line of the same function already has located instructions
-    "elem_field_set": ("let tq = Array[TP]::new(TP(a = x, b = 2)); let tw = tq(z).a + x;\nlet r = 0; tq(x + x).a = tw;",
+    # every other located instruction of the function (index arithmetic included) sits on an earlier line, so a
+    # location inherited from the previous instruction shows as a wrong line
+    "elem_field_set": ("let tq = Array[TP]::new(TP(a = x, b = 2)); let tw = tq(z).a + x; let ti = x + x;\nlet r = 0; tq(ti).a = tw;",
                        103, "array index out of bounds"),
-    "elem_method": ("let tq = Array[TP]::new(TP(a = x, b = 2)); let tw = tq(z).a + x;\nlet r = tw - tw; tq(x + x).bump();",
+    "elem_method": ("let tq = Array[TP]::new(TP(a = x, b = 2)); let tw = tq(z).a + x; let ti = x + x;\nlet r = 0; tq(ti).bump();",
                     103, "array index out of bounds"),
     "assert": ("let r = 0; assert(x == z);", 102, "assert failed"),
     "unreachable": ("let r = 0; if x != z { std::unreachable(); }", 1, "unreachable code executed."),
